@@ -19,7 +19,7 @@ from mc import core, seams
 
 PROPERTY = 'C10'
 LEVEL = 'model_checking'
-RULE = ('state = (function, option branch, seed, intervening RNG-use history); all histories of length <= 2 over the event menu are '
+RULE = ('state = (function, option branch, seed, intervening RNG-use history); all histories of length <= 2 (quick) or <= 3 (thorough) over the event menu are '
         'enumerated for every branch and seed; transition = one seeded call compared bit-for-bit with the first call and checked '
         'with the validity predicate of the advertised set; non-trivial = distinct (branch, seed) outputs. '
         'Audit wave: every API with a seed parameter is a branch (check_model_gradient, find_optimal_UD, AutodiffCHAREE.get_boundary / '
@@ -795,10 +795,10 @@ def build_cases(tier, seed):
             for size in (None, 2, (2, 2)):
                 cases.append({'kind': 'ballstub', 'function': fname, 'dim': dim, 'size': size if not isinstance(size, tuple) else list(size)})
     cases.append({'kind': 'cliffstub'})
-    hl = 2
+    hl = 2 if tier == 'quick' else 3
     info = {'branches': len(B), 'functions': len({b[0] for b in B}), 'seeds': SEEDS if tier == 'quick' else SEEDS + [2, 3, 12345, 2**31 - 1],
             'events': EVENTS, 'history_length': hl, 'histories_per_branch_seed': len(histories(hl)),
-            'heavy_history_length': 1, 'exhaustive': True,
+            'heavy_history_length': 1, 'light_history_length': 1 if tier == 'quick' else hl, 'exhaustive': True,
             'f2stub': 'rand_F2 under a stub generator: every sequence of <= 3 draws over all 2^n bit patterns (n <= 4), all four flag combinations',
             'ballstub': 'rand_n_sphere / rand_n_ball under a generator whose normal() and uniform() are harness answers: directions from a menu of 4 per dim, radii u from a menu of 5, all u-tuples for <= 4 points; point = g/|g| * u**(1/dim)',
             'cliffstub': 'CliffordCircuit(seed=stub): program one(0) one(2) two(0,1) two(2,1), all 6*6*3*3 answer tuples: recorded gates and qubit indices',
@@ -1017,7 +1017,7 @@ def run_case(case, out, env):
         return run_cliffstub(case, out, env)
     name, label, fn, valid, heavy, cross, light = get_branches()[case['index']]
     seeds = SEEDS if env.tier == 'quick' else SEEDS + [2, 3, 12345, 2**31 - 1]
-    hs = histories(2)
+    hs = histories(2 if env.tier == 'quick' else 3)
     if heavy:
         seeds = seeds[:1] if env.tier == 'quick' else seeds[:2]
         hs = histories(1)
